@@ -365,6 +365,33 @@ Definition own_allocs (c : config) (i r : nat) : list aop := window c i r (ssize
 Definition result (th : thread) : option (list aop) :=
   match md th with Returned => Some (saved th) | _ => None end.
 
+(** * The caller's bookkeeping of a round's samples (bench_loop_threaded 855-867)
+
+    [for raw_sample in raw_samples]: sample_index = time_samples.len(); push the
+    time sample; insert the allocation info under sample_index unless its
+    tallies are all zero ([tallies.is_empty()]).  raw_samples[t] is thread t's
+    slot ([par_extend] writes slot [index]), so round r (T samples pushed per
+    earlier round) stores thread t's tally under r*T + t. *)
+Definition tally_empty (s : list aop) : bool := match s with [] => true | _ => false end.
+
+Fixpoint record_samples (idx : nat) (samples : list (list aop)) (m : list (nat * list aop)) : list (nat * list aop) :=
+  match samples with
+  | [] => m
+  | s :: rest => record_samples (S idx) rest (if tally_empty s then m else m ++ [(idx, s)])
+  end.
+
+(** Rounds r, ..., r+k-1 of a run without faults, [idx] = time_samples.len(). *)
+Fixpoint run_records (c : config) (r k idx : nat) (m : list (nat * list aop)) : list (nat * list aop) :=
+  match k with
+  | 0 => m
+  | S k' =>
+    run_records c (S r) k' (idx + nthreads c)
+      (record_samples idx (map (fun t => own_allocs c t r) (seq 0 (nthreads c))) m)
+  end.
+
+(** alloc_info_by_sample at the end of a run in which nothing panics. *)
+Definition records (c : config) : list (nat * list aop) := run_records c 0 (nrounds c) 0 [].
+
 (** (count, bytes) of allocations and of deallocations *)
 Fixpoint summarise (l : list aop) : (N * N) * (N * N) :=
   match l with
